@@ -365,7 +365,7 @@ def one_world(ctx, h, reqs, checks):
         code = hier_tie(ctx, h, E, reqs, checks)
         w = populate(rng, h, db, E, H)
         code_l, cmap = codes(E)
-        for s in range(ctx.scale(4, 8)):
+        for s in range(ctx.scale(5, 8)):
             ck = Checker(ctx, h, db, E, H, w)
             with db_session:
                 for _ in range(rng.choice([1, 2, 3, 5, 8])):
@@ -426,7 +426,7 @@ def run(ctx):
     rng = ctx.rng
     witnesses(ctx)
     reqs, checks = [], []
-    worlds = ctx.scale(14, 160)
+    worlds = ctx.scale(40, 400)
     made = 0; guard = 0
     while made < worlds and guard < worlds * 20:
         guard += 1
